@@ -86,7 +86,7 @@ def build_coq(targets, timeout):
     rc, out = sh([os.path.join(ROOT, "tools", "mkcoq.sh")])
     if rc:
         fail_machinery("mkcoq.sh failed:\n" + out)
-    rc, out = sh(["make", "-j16"] + targets, cwd=COQ, timeout=timeout)
+    rc, out = sh(["make", "-k", "-j16"] + targets, cwd=COQ, timeout=timeout)
     return rc, out
 
 
